@@ -173,8 +173,10 @@ func TestC04(t *testing.T) {
 		w := bases[c.mv]
 		var ls []gen.PlatformLevel
 		var desc []string
-		for _, l := range c.levels {
-			ls = append(ls, shapeLevel(w, levelShapes[l[0]], gen.Statuses[l[1]]))
+		for li, l := range c.levels {
+			lv := shapeLevel(w, levelShapes[l[0]], gen.Statuses[l[1]])
+			lv.Date = gen.LevelDates[(li*2+l[0]+l[1])%len(gen.LevelDates)] // dates deliberately not in listed order
+			ls = append(ls, lv)
 			desc = append(desc, levelShapes[l[0]]+"/"+gen.Statuses[l[1]])
 		}
 		w.TcbInfo.Levels = ls
@@ -190,10 +192,20 @@ func TestC04(t *testing.T) {
 			md += "]"
 			w.TcbInfo.Identities = []gen.ModuleIdentity{{ID: fmt.Sprintf("TDX_%02x", maxb(c.mv, 1)), Mrsigner: make([]byte, 48), Attributes: make([]byte, 8), Mask: make([]byte, 8), Levels: ml}}
 		}
+		if dec := fmt.Sprintf("TDX_%02d", c.mv); c.mv >= 10 && dec != fmt.Sprintf("TDX_%02x", c.mv) {
+			// an identity under the DECIMAL spelling of the version is a different identity and must not be consulted
+			st := "UpToDate"
+			if len(c.levels)%2 == 0 {
+				st = "Revoked"
+			}
+			decoy := gen.ModuleIdentity{ID: dec, Mrsigner: make([]byte, 48), Attributes: make([]byte, 8), Mask: make([]byte, 8), Levels: []gen.ModuleLevel{{Isvsvn: 0, Status: st}}}
+			w.TcbInfo.Identities = append([]gen.ModuleIdentity{decoy}, w.TcbInfo.Identities...)
+			md += " +decoy " + dec + "/" + st
+		}
 		d := fmt.Sprintf("TEE_TCB_SVN[1]=%d levels=%v %s", c.mv, desc, md)
 		c04Run(t, w, d, "")
 	}
-	bases := map[byte]*gen.World{0: c04BaseWorld(gen.Seed(), 0), 1: c04BaseWorld(gen.Seed()+1, 1), 2: c04BaseWorld(gen.Seed()+2, 2)}
+	bases := map[byte]*gen.World{0: c04BaseWorld(gen.Seed(), 0), 1: c04BaseWorld(gen.Seed()+1, 1), 2: c04BaseWorld(gen.Seed()+2, 2), 10: c04BaseWorld(gen.Seed()+3, 10), 16: c04BaseWorld(gen.Seed()+4, 16), 171: c04BaseWorld(gen.Seed()+5, 171)}
 	if gen.Tier() == "thorough" {
 		gen.Direct(t, "abstraction-exhaustive", func(t *testing.T) {
 			idx := 0
@@ -228,7 +240,7 @@ func TestC04(t *testing.T) {
 			}
 			// module branch: reduced platform shapes x all module lists
 			reduced := []int{0, 1, 2, 7, 8, 9}
-			for _, mv := range []byte{1, 2} {
+			for _, mv := range []byte{1, 2, 10, 16} {
 				var pls [][][2]int
 				for _, a := range reduced {
 					for st := 0; st < 7; st++ {
@@ -255,7 +267,7 @@ func TestC04(t *testing.T) {
 		})
 	}
 	gen.Prop(t, "abstraction-sampled", gen.N(5000, 20000), func(t *rapid.T) {
-		c := absCase{mv: rapid.SampledFrom([]byte{0, 0, 1, 1, 2}).Draw(t, "mv")}
+		c := absCase{mv: rapid.SampledFrom([]byte{0, 0, 1, 1, 2, 10, 16, 171}).Draw(t, "mv")}
 		for i, n := 0, rapid.IntRange(1, 2).Draw(t, "levels"); i < n; i++ {
 			c.levels = append(c.levels, [2]int{rapid.IntRange(0, len(levelShapes)-1).Draw(t, "shape"), rapid.SampledFrom([]int{0, 0, 1, 2, 3, 4, 5, 6}).Draw(t, "status")})
 		}
